@@ -11,7 +11,7 @@ from vlib import VERIF, CHAN_RUSTFLAGS
 
 THEOREMS = chanlib.names("C05")
 # ---- step-level B-model obligations/ties of other agents: each exposes THEOREMS (+MODULE) / obligations(ctx) and tie(ctx)
-LAYER_B = ["spscb", "mpmc2b", "rdvb", "mpsc3b", "lockb"]
+LAYER_B = chanlib.LAYER_B_ALL + ["lockb"]
 
 def run(ctx):
     ctx.lean_obligations("Fv.Props.C05", THEOREMS)
@@ -20,12 +20,19 @@ def run(ctx):
     ctx.assumptions += [a for a in chanlib.ASSUMPTIONS if a not in ctx.assumptions]
     ctx.assumptions.append("C05: liveness in safety form (no enabled operation is blocked at quiescence); that a runnable thread is eventually scheduled, and that spin/yield re-contention loops terminate under an unfair scheduler, is assumed")
     if ctx.replay:
-        chanlib.liveness_tie(ctx, "replay", [h, "run", ctx.replay], drv); return
+        if chanlib.replay_owner(ctx) is None:
+            chanlib.liveness_tie(ctx, "replay", [h, "run", ctx.replay], drv)
+        chanlib.layer_b(ctx, LAYER_B); return
     for w in ("C05_F14_mpsc_b_send_blocked_with_space.case", "C05_F5_mpmc_recv_timeout_unreachable.case",
               "C04_OBS_oneshot_recv_after_taken.case"):
         if os.path.exists(os.path.join(VERIF, "findings", w)):
             chanlib.liveness_tie(ctx, "known-" + w[:-5], [h, "run", os.path.join(VERIF, "findings", w)], drv)
-    n = 4000 if ctx.quick else 80000
+    # sequential programs: a blocking op whose condition never comes is reported `blocks` by the harness and must be
+    # `blocks` in the model too (Enabled on the exact abstract state) - catches count/flag bookkeeping slips that make a
+    # thread wait for a disconnect or for space that the history says is already there
+    ns = 3000 if ctx.quick else 40000
+    chanlib.tie(ctx, "seq-differential", [h, "gen", "--seed", str(ctx.seed), "--cases", str(ns), "--mode", "seq", "--tier", ctx.tier], [drv])
+    n = 12000 if ctx.quick else 120000
     chanlib.liveness_tie(ctx, "conc-liveness", [h, "gen", "--seed", str(ctx.seed), "--cases", str(n), "--mode", "conc",
                                                 "--tier", ctx.tier], drv)
     chanlib.layer_b(ctx, LAYER_B)
